@@ -120,11 +120,27 @@ var FieldDeepEqualContainer = `
 	for {{$idx}}, v := range {{.Target}} {
 		{{- $ctx := (.ValCtx.WithTarget "v").WithSource $src}}
 		{{- if eq .Type.Category.String "Map" }}
+		{{- if .KeyCtx.Type.Category.IsStructLike}}
+		// struct keys are pointers: find the entry whose key has equal content
+		found := false
+		for k2, {{$src}} := range {{.Source}} {
+			if !k.DeepEqual(k2) {
+				continue
+			}
+			found = true
+			{{- template "FieldDeepEqual" $ctx}}
+			break
+		}
+		if !found {
+			return false
+		}
+		{{- else}}
 		{{$src}}, ok := {{.Source}}[{{$idx}}]
 		if !ok {
 			return false
 		}
 		{{- template "FieldDeepEqual" $ctx}}
+		{{- end}}
 		{{- else}}
 		{{$src}} := {{.Source}}[{{$idx}}]
 		{{- template "FieldDeepEqual" $ctx}}
